@@ -40,6 +40,7 @@ fn gate(p: &Partial, _t: Tier) -> Result<(), String> {
     super::need(p, "lattice:unchanged:zone-straddling pair", 10)?;
     super::need(p, "lattice:within-20m", 50_000)?;
     super::need(p, "lattice:distance-checked", 50_000)?;
+    super::need(p, "lattice:altitude-code-variants", 1000)?;
     super::need(p, "oracle:position:decoded", 100)?;
     super::need(p, "oracle:position:unchanged", 100)?;
     if p.states.len() < 500 {
@@ -111,10 +112,22 @@ struct Pair {
     first_odd: bool,
     delay_ms: i64,
     foreign: usize, // 0 none, 1 DF4, 2 TC19, 3 TC4, 4 DF11
+    /// AC12 code carried by both position squitters (None = 36000 ft)
+    ac12: Option<u32>,
 }
 
 fn pframe(addr: u32, p: (f64, f64), odd: bool) -> Frame {
     rowmodel::pos_frame(17, addr, 11, 36000, p, odd)
+}
+
+fn pframe_ac(addr: u32, p: (f64, f64), odd: bool, ac12: Option<u32>) -> Frame {
+    match ac12 {
+        None => pframe(addr, p, odd),
+        Some(code) => {
+            let (la, lo) = cpr::encode(p.0, p.1, odd);
+            frames::df17(5, addr, frames::me_airpos(11, 0, 0, code, 0, odd as u32, la, lo))
+        }
+    }
 }
 
 fn foreign_frame(addr: u32, k: usize) -> Option<Frame> {
@@ -131,7 +144,7 @@ fn foreign_frame(addr: u32, k: usize) -> Option<Frame> {
 fn run_pairs(cfg: &Cfg, pairs: &[Pair]) -> Result<HashMap<u32, Snap>, String> {
     let delay = pairs[0].delay_ms;
     let t = new_table();
-    let first: Vec<Vec<u8>> = pairs.iter().enumerate().map(|(i, p)| pframe(BASE + i as u32, p.p1, p.first_odd).hex().into_bytes()).collect();
+    let first: Vec<Vec<u8>> = pairs.iter().enumerate().map(|(i, p)| pframe_ac(BASE + i as u32, p.p1, p.first_odd, p.ac12).hex().into_bytes()).collect();
     crate::run::describe_current("C08 lattice chunk, first frames");
     let o = run_file(cfg, &join_lines(&first), &t);
     if !o.is_ok() {
@@ -145,7 +158,7 @@ fn run_pairs(cfg: &Cfg, pairs: &[Pair]) -> Result<HashMap<u32, Snap>, String> {
         if let Some(f) = foreign_frame(BASE + i as u32, p.foreign) {
             second.push(f.hex().into_bytes());
         }
-        second.push(pframe(BASE + i as u32, p.p2, !p.first_odd).hex().into_bytes());
+        second.push(pframe_ac(BASE + i as u32, p.p2, !p.first_odd, p.ac12).hex().into_bytes());
     }
     crate::run::describe_current("C08 lattice chunk, second frames");
     let o = run_file(cfg, &join_lines(&second), &t2);
@@ -158,7 +171,7 @@ fn run_pairs(cfg: &Cfg, pairs: &[Pair]) -> Result<HashMap<u32, Snap>, String> {
 fn judge_pair(ctx: &mut Ctx, cfg: &Cfg, observer: (f64, f64), obs_label: &str, p: &Pair, row: Option<&Snap>) {
     ctx.eval();
     let key = format!("p1=({:.6},{:.6}) p2=({:.6},{:.6}) first={} delay={}ms foreign={}", p.p1.0, p.p1.1, p.p2.0, p.p2.1, if p.first_odd { "odd" } else { "even" }, p.delay_ms, p.foreign);
-    let case = || json!({"kind": "pair", "p1": [p.p1.0, p.p1.1], "p2": [p.p2.0, p.p2.1], "first_odd": p.first_odd, "delay_ms": p.delay_ms, "foreign": p.foreign, "cfg": cfg.opts, "observer": obs_label});
+    let case = || json!({"kind": "pair", "p1": [p.p1.0, p.p1.1], "p2": [p.p2.0, p.p2.1], "first_odd": p.first_odd, "delay_ms": p.delay_ms, "foreign": p.foreign, "cfg": cfg.opts, "observer": obs_label, "ac12": p.ac12});
     let Some(row) = row else {
         ctx.violation(&format!("C08/lattice/no-row/{}", cfg.label()), &key, || format!("{key}: no row"), case);
         return;
@@ -265,6 +278,7 @@ fn run_pair_model(ctx: &mut Ctx, opts: &[&str], depth: usize) {
         let complaints: Vec<(String, String)> = oracle.judge(ctx, &cfg, st);
         ctx.out.traces_validated += 1;
         rowmodel::report(ctx, "C08", "PAIR", &cfg, &actions, st, complaints, json!({"depth": depth}));
+        crate::engine::explore::leaf_conformance(ctx, "C08/PAIR", "PAIR", &cfg, &[], &actions, st, depth, json!({"depth": depth}));
     });
     ctx.bound(&format!("PAIR [{}]", cfg.label()), format!("depth {depth}, {} actions", actions.len()));
 }
@@ -288,7 +302,7 @@ fn run(ctx: &mut Ctx) {
                     let mut pairs = vec![];
                     for &lat in &lats {
                         for &lon in &LONS {
-                            pairs.push(Pair { p1: (lat, lon), p2: displace(lat, lon, k), first_odd, delay_ms: delay, foreign: 0 });
+                            pairs.push(Pair { p1: (lat, lon), p2: displace(lat, lon, k), first_odd, delay_ms: delay, foreign: 0, ac12: None });
                         }
                     }
                     run_lattice(ctx, &cfg, OBSERVERS[0].1, OBSERVERS[0].0, &pairs);
@@ -311,7 +325,7 @@ fn run(ctx: &mut Ctx) {
                     for &lat in &mids {
                         for &lon in &LONS {
                             for first_odd in [false, true] {
-                                pairs.push(Pair { p1: (lat, lon), p2: displace(lat, lon, 1), first_odd, delay_ms: delay, foreign });
+                                pairs.push(Pair { p1: (lat, lon), p2: displace(lat, lon, 1), first_odd, delay_ms: delay, foreign, ac12: None });
                             }
                         }
                     }
@@ -319,6 +333,25 @@ fn run(ctx: &mut Ctx) {
                     ctx.count(&format!("observer:{ostr}"));
                 }
             }
+        }
+        // the position does not depend on what the altitude field says: codes without an altitude
+        // (all zero, below 0 ft), 0 ft, a Gillham code, the highest code
+        squitterator::set_observer_coords_from_str(OBSERVERS[0].0);
+        for code in [0u32, frames::ac12_q1(0), frames::ac12_q1(39), frames::ac12_q1(40), 0x0A2, 0xFFF] {
+            job += 1;
+            if !ctx.mine(job) {
+                continue;
+            }
+            let mut pairs = vec![];
+            for &lat in &mids {
+                for &lon in &LONS[2..7] {
+                    for first_odd in [false, true] {
+                        pairs.push(Pair { p1: (lat, lon), p2: displace(lat, lon, 2), first_odd, delay_ms: 3000, foreign: 0, ac12: Some(code) });
+                    }
+                }
+            }
+            ctx.count_n("lattice:altitude-code-variants", pairs.len() as u64);
+            run_lattice(ctx, &cfg, OBSERVERS[0].1, OBSERVERS[0].0, &pairs);
         }
         if thorough {
             squitterator::set_observer_coords_from_str(OBSERVERS[0].0);
@@ -337,7 +370,7 @@ fn run(ctx: &mut Ctx) {
                     for li in 0..16 {
                         let lon = -180.0 + li as f64 * 22.5 + 0.013;
                         for first_odd in [false, true] {
-                            pairs.push(Pair { p1: (lat, lon), p2: displace(lat, lon, 3), first_odd, delay_ms: 2000, foreign: 0 });
+                            pairs.push(Pair { p1: (lat, lon), p2: displace(lat, lon, 3), first_odd, delay_ms: 2000, foreign: 0, ac12: None });
                         }
                     }
                 }
@@ -371,6 +404,7 @@ fn replay(ctx: &mut Ctx, case: &Value) {
             first_odd: case.get("first_odd").and_then(|x| x.as_bool()).unwrap_or(false),
             delay_ms: case.get("delay_ms").and_then(|x| x.as_i64()).unwrap_or(0),
             foreign: case.get("foreign").and_then(|x| x.as_u64()).unwrap_or(0) as usize,
+            ac12: case.get("ac12").and_then(|x| x.as_u64()).map(|x| x as u32),
         };
         let ostr = case.get("observer").and_then(|x| x.as_str()).unwrap_or(OBSERVERS[0].0).to_string();
         let oc = OBSERVERS.iter().find(|(s, _)| *s == ostr).map(|(_, c)| *c).unwrap_or(OBSERVERS[0].1);
@@ -393,6 +427,9 @@ fn replay(ctx: &mut Ctx, case: &Value) {
     let oracle = RowOracle { lookup: Lookup::new(), relaxed: false, probe_idempotence: false, prop: "C08" };
     let model = Model { cfg: &cfg, actions: &actions, depth, init: vec![], aux0: Slots::default() };
     replay_path(ctx, &model, &path, rowmodel::aux_step, |ctx, st| {
+        if crate::engine::explore::replay_leaf_conformance(ctx, case, "C08/PAIR", &cfg, &[], &actions, st) {
+            return;
+        }
         let complaints = oracle.judge(ctx, &cfg, st);
         for (s, m) in &complaints {
             crate::run::say(&format!("  oracle [{s}]: {m}"));
